@@ -4,19 +4,38 @@
 open C17_model
 let unhex (s : string) : char list = List.init (String.length s / 2) (fun i -> Char.chr (int_of_string ("0x" ^ String.sub s (2 * i) 2)))
 let hex (l : char list) : string = String.concat "" (List.map (fun c -> Printf.sprintf "%02x" (Char.code c)) l)
-let rec pos_of_int (i : int) : positive =
-  if i = 1 then XH else if i land 1 = 0 then XO (pos_of_int (i lsr 1)) else XI (pos_of_int (i lsr 1))
-let z_of_int (i : int) : z = if i = 0 then Z0 else if i > 0 then Zpos (pos_of_int i) else Zneg (pos_of_int (-i))
-let n_of_int (i : int) : n = if i = 0 then N0 else Npos (pos_of_int i)
-let rec int_of_pos = function XH -> 1 | XO p -> 2 * int_of_pos p | XI p -> 2 * int_of_pos p + 1
-let int_of_z = function Z0 -> 0 | Zpos p -> int_of_pos p | Zneg p -> - (int_of_pos p)
+(* decimal text <-> positive without machine integers (defaults may exceed OCaml's 63-bit int: u64 values) *)
+let divmod2 (digits : int list) : int list * int =            (* most significant digit first *)
+  let q, r = List.fold_left (fun (acc, carry) d -> let v = carry * 10 + d in (v / 2 :: acc, v mod 2)) ([], 0) digits in
+  let rec strip = function 0 :: (_ :: _ as r) -> strip r | l -> l in
+  (strip (List.rev q), r)
+let rec pos_of_digits (ds : int list) : positive =
+  if ds = [1] then XH else let (q, r) = divmod2 ds in if r = 0 then XO (pos_of_digits q) else XI (pos_of_digits q)
+let digits_of_string (t : string) : int list = List.init (String.length t) (fun i -> Char.code t.[i] - 48)
+let z_of_string (t : string) : z =
+  let neg = String.length t > 0 && t.[0] = '-' in
+  let body = if neg then String.sub t 1 (String.length t - 1) else t in
+  let rec strip = function 0 :: (_ :: _ as r) -> strip r | l -> l in
+  let ds = strip (digits_of_string body) in
+  if ds = [0] then Z0 else if neg then Zneg (pos_of_digits ds) else Zpos (pos_of_digits ds)
+let n_of_int (i : int) : n =
+  let rec pos_of_int i = if i = 1 then XH else if i land 1 = 0 then XO (pos_of_int (i lsr 1)) else XI (pos_of_int (i lsr 1)) in
+  if i = 0 then N0 else Npos (pos_of_int i)
+let double_digits (ds : int list) (plus : int) : int list =    (* least significant digit first *)
+  let rec go ds carry = match ds with
+    | [] -> if carry = 0 then [] else [carry]
+    | d :: r -> let v = 2 * d + carry in (v mod 10) :: go r (v / 10) in
+  go ds plus
+let rec digits_of_pos = function XH -> [1] | XO p -> double_digits (digits_of_pos p) 0 | XI p -> double_digits (digits_of_pos p) 1
+let string_of_pos p = String.concat "" (List.rev_map string_of_int (digits_of_pos p))
+let string_of_z = function Z0 -> "0" | Zpos p -> string_of_pos p | Zneg p -> "-" ^ string_of_pos p
 let value t = match t.[0] with
-  | 'N' -> VNull | 'B' -> VBool (t = "Bt") | 'I' -> VInt (z_of_int (int_of_string (String.sub t 1 (String.length t - 1))))
+  | 'N' -> VNull | 'B' -> VBool (t = "Bt") | 'I' -> VInt (z_of_string (String.sub t 1 (String.length t - 1)))
   | 'S' -> VStr (unhex (String.sub t 1 (String.length t - 1))) | _ -> VOther
 let prim t = match t with
   | "string" -> PString | "bool" -> PBool | "float" -> PFloat | "other" -> POther
   | _ -> PInt (n_of_int (int_of_string (String.sub t 1 (String.length t - 1))), t.[0] = 'i')
-let show = function LStr s -> "S" ^ hex s | LBool b -> if b then "Bt" else "Bf" | LInt z -> "I" ^ string_of_int (int_of_z z) | LTypeDefault -> "D"
+let show = function LStr s -> "S" ^ hex s | LBool b -> if b then "Bt" else "Bf" | LInt z -> "I" ^ string_of_z z | LTypeDefault -> "D"
 let () =
   try
     while true do
